@@ -65,6 +65,58 @@ func apkVersion(rt *rapid.T, l string, ncomp int) string {
 	return sb.String()
 }
 
+// apkNeighbor edits a within the claimed domain: one number changed, the
+// letter changed, a suffix added / removed / renamed / renumbered, the revision changed.
+func apkNeighbor(rt *rapid.T, a string) string {
+	head, rev := a, ""
+	if k := strings.Index(a, "-r"); k >= 0 {
+		head, rev = a[:k], a[k:]
+	}
+	parts := strings.Split(head, "_")
+	core, sufs := parts[0], parts[1:]
+	letter := ""
+	if n := len(core); n > 0 && core[n-1] >= 'a' && core[n-1] <= 'z' {
+		core, letter = core[:n-1], core[n-1:]
+	}
+	nums := strings.Split(core, ".")
+	switch rapid.IntRange(0, 7).Draw(rt, "ak") {
+	case 0:
+		i := rapid.IntRange(0, len(nums)-1).Draw(rt, "ni")
+		nums[i] = gen.Num(rt, "nv", gen.NumOpts{})
+	case 1:
+		letter = gen.Pick(rt, "lt", "", "a", "b", "z")
+	case 2:
+		if len(sufs) < 3 {
+			sufs = append(sufs, gen.Pick(rt, "sa", apkSufNames...)+gen.Pick(rt, "sn", "", "1", "2"))
+		}
+	case 3:
+		if len(sufs) > 0 {
+			sufs = sufs[:len(sufs)-1]
+		}
+	case 4:
+		if len(sufs) > 0 {
+			i := rapid.IntRange(0, len(sufs)-1).Draw(rt, "si")
+			sufs[i] = gen.Pick(rt, "sr", apkSufNames...) + strings.TrimLeft(sufs[i], "abcdefghijklmnopqrstuvwxyz")
+		}
+	case 5:
+		if len(sufs) > 0 {
+			i := rapid.IntRange(0, len(sufs)-1).Draw(rt, "si")
+			sufs[i] = strings.TrimRight(sufs[i], "0123456789") + gen.Pick(rt, "sn", "", "0", "1", "2", "10")
+		}
+	case 6:
+		rev = gen.Pick(rt, "rv", "", "-r1", "-r2", "-r10")
+	default:
+		if len(sufs) > 1 {
+			sufs[0], sufs[1] = sufs[1], sufs[0]
+		}
+	}
+	out := strings.Join(nums, ".") + letter
+	for _, s := range sufs {
+		out += "_" + s
+	}
+	return out + rev
+}
+
 func TestC14(t *testing.T) {
 	r := newRunner(t, "C14")
 	e := eco.ByName("alpine")
@@ -101,9 +153,12 @@ func TestC14(t *testing.T) {
 		nc := rapid.IntRange(1, 5).Draw(rt, "nc")
 		a := apkVersion(rt, "a", nc)
 		var b string
-		if gen.Chance(rt, "nb", 3, 4) {
+		switch rapid.IntRange(0, 3).Draw(rt, "bk") {
+		case 0:
 			b = gen.Neighbor(rt, e, a, "b")
-		} else {
+		case 1, 2:
+			b = apkNeighbor(rt, a)
+		default:
 			b = apkVersion(rt, "b", nc)
 		}
 		if gen.Chance(rt, "swap", 1, 2) {
